@@ -421,3 +421,24 @@ def prop_expand(run, PV, cls, text, depth=3):
                             return T(self.d - 1).visit(sub)
             return node
     return ast.unparse(T(depth).visit(e))
+
+
+def comm_flag(run):
+    """The link-failure flag by role: the one attribute of self that HSM2ProtocolLedger.ensure_connection tests to decide whether to reconnect
+    (`_comm_issue` on the pinned tree; a private name a maintainer may change)."""
+    import ast
+    from sa.model import norm
+    P, A = run.P, run.A
+    V2 = P.cls("ledger.protocol.HSM2ProtocolLedger")
+    ens = P.method(V2, "ensure_connection")
+    g = A.cfg(ens, V2)
+    names = set()
+    for n in g.nodes:
+        if n.kind == "cond" and n.ast is not None:
+            e = n.ast
+            while isinstance(e, ast.UnaryOp) and isinstance(e.op, ast.Not):
+                e = e.operand
+            if isinstance(e, ast.Attribute) and isinstance(e.value, ast.Name) and e.value.id == "self":
+                names.add(e.attr)
+    run.require(len(names) == 1, f"ensure_connection: the test of the link-failure flag vanished or multiplied ({sorted(names)})")
+    return next(iter(names))
